@@ -1,6 +1,6 @@
 (** C10 - Pad characters and pad widths convert consistently in both pad styles.
     Theorem statements only; proofs live in Proofs/PadProofs.v. *)
-From GFS Require Import Base Dec Regex GenRegex GenPadTables Ranges Pad FrameSet Path Seq PadProofs.
+From GFS Require Import Base Dec Regex GenRegex GenPadTables Ranges Pad FrameSet Path Seq DecProofs PadProofs TokenProofs.
 Local Open Scope Z_scope.
 
 (** width -> pad characters -> width is the identity for every width >= 1,
@@ -25,6 +25,20 @@ Theorem udim_counts : forall st,
   padding_chars_size st (s2b "<UDIM>") = 4 /\ padding_chars_size st (s2b "%(UDIM)d") = 4.
 Proof. exact size_udim. Qed.
 Print Assumptions udim_counts.
+
+(** %0Nd and %Nd count N; 1 when N is absent, zero, or does not fit an int - for every digit string *)
+Theorem printf_counts : forall st ds, all_digits ds ->
+  padding_chars_size st (37%nat :: ds ++ [100%nat]) =
+  match atoi ds with Some v => if v <? 1 then 1 else v | None => 1 end.
+Proof. exact printf_token_counts. Qed.
+Print Assumptions printf_counts.
+
+(** $FN counts N; 1 when N is absent or zero *)
+Theorem houdini_counts : forall st ds, all_digits ds ->
+  padding_chars_size st (36%nat :: 70%nat :: ds) =
+  match atoi ds with Some v => if v <? 1 then 1 else v | None => 1 end.
+Proof. exact houdini_token_counts. Qed.
+Print Assumptions houdini_counts.
 
 (** switching the pad style of a sequence that has padding never changes its
     width, so every frame path is unchanged *)
